@@ -228,6 +228,8 @@ def spell_var_decl(sp, inner, name, comps):
 def spell_variables(sp, inner, rng):
     """one `@variables` rule (an abstract rule made here: distinct names, values of c02_gen)"""
     names = rng.sample(VAR_NAMES, rng.randint(0, 3))
+    if names and rng.random() < 0.25:
+        names.insert(rng.randint(0, len(names)), rng.choice(names))       # a name declared twice: the later one wins in place
     decls = [spell_var_decl(sp, inner, n, G.gen_value(rng)) for n in names]
     last = decls.pop() if decls and rng.random() < 0.5 else None
     blk = {'lead': sp.gap(), 'items': [(d, sp.gap()) for d in decls], 'last': last}
@@ -666,7 +668,15 @@ def e_var(r):
         return {'k': 'comment', 'body': enc(r[1])}
     blk = r[3]
     ds = [d for d, _ in blk['items']] + ([blk['last']] if blk['last'] else [])
-    return {'k': 'variables', 'vars': [{'name': enc(d['name']), 'value': j_toks(d['value'])} for d in ds]}
+    out = []            # `SVarBlock.erase`: a name declared again takes the place of its first declaration
+    for d in ds:
+        v = {'name': enc(d['name']), 'value': j_toks(d['value'])}
+        hit = [i for i, e in enumerate(out) if e['name'] == v['name']]
+        if hit:
+            out[hit[0]] = v
+        else:
+            out.append(v)
+    return {'k': 'variables', 'vars': out}
 
 
 def erase(ss):
